@@ -71,6 +71,7 @@ OtherBlock == <<ClassAst(B("com.Other"), B("b")), EntryAst(<<D(1), D(9)>>, <<>>,
 RecAlpha ==
   {ClassAst(B("com.A"), B("a")), ClassAst(B("com.A2"), B("a")), ClassAst(B("com.B"), B("b")),
    SourceFileAst(B("F.kt")), HeaderAst(B("sourceFile"), <<>>), HeaderAst(B("other"), <<B("v")>>),
+   HeaderAst(B("{\"id\""), <<B("\"com.android.tools.r8.synthesized\"}")>>),      \* (an R8 JSON comment: a record like any other)
    FieldAst(B("int"), B("fld"), B("m"))}
   \cup {MethodAst(B("void"), <<>>, p, a, r, <<>>, o) :
           o \in {B("m"), B("n")}, p \in {B("p"), B("q")}, a \in {<<>>, B("x")},
